@@ -2,6 +2,7 @@ import AlatorVerif.Lemmas.BrokerProps
 import AlatorVerif.Model.Client
 import AlatorVerif.Lemmas.BrokerSrvRefines
 import AlatorVerif.Lemmas.BrokerSrvHist
+import AlatorVerif.Lemmas.BrokerSrvMixed
 /-!
 # C06 — order gatekeeping: valid orders forwarded exactly once; refusals are inert
 
@@ -69,6 +70,17 @@ theorem broker_view_survives_any_foreign_history (a : Refine.UApp σ α) (id : N
     (hid : id ≤ a.last) (hf : ∀ op ∈ ops, Refine.Foreign id op) :
     Refine.absSrv (SV.run SV.uistOps a ops).2 id = Refine.absSrv a id :=
   (Refine.view_unmoved_by_foreign_history id ops a hid hf).1
+
+/-- **every interleaving of the broker's requests with everybody else's**: after any history in which the
+    broker's client sends `tick`s and `insert_order`s to its backtest `id` while other clients create backtests and
+    send anything to other ids, the view of backtest `id` is the initial broker-server with *only the broker's own
+    requests* applied, in their order. The other clients have left no trace in it -/
+theorem broker_view_after_any_interleaving (a : Refine.UApp σ α) (id : Nat) (s : Srv σ α)
+    (ms : List (Refine.Mixed σ α)) (hs : Refine.absSrv a id = some s) (hr : Refine.Rows a id) (hid : id ≤ a.last)
+    (hf : ∀ op, Refine.Mixed.other op ∈ ms → Refine.Foreign id op) :
+    Refine.absSrv (SV.run SV.uistOps a (ms.map (Refine.Mixed.toOp id))).2 id
+      = some ((Refine.ownPart ms).foldl Refine.Own.apply s) :=
+  Refine.view_after_mixed_history id ms a s hs hr hid hf
 
 /-- the hypothesis `Rows` is met by every backtest over a dataset built from a `Penelope` store whose clock
     sits on a listed date (non-vacuity of the theorem above) -/
